@@ -81,12 +81,25 @@ def simplifyPart (p : Part) : Option PyVal :=
       then lookupStr "value" li.kwargs else none
   | _, _, _, _ => none
 
+/-- `simplify()` raises `KeyError` for a part that passes the structural tests but whose `equal_to`
+    condition has no `value` keyword (a condition built directly, not through the DSL) -/
+def simplifyRaises (p : Part) : Bool :=
+  match p.kind, p.cond, p.listCond, p.mapCond with
+  | .map, .leaf l, _, _ =>
+      l.cls == .key && l.fn == "equal_to" && (lookupStr "value" l.kwargs).isNone
+  | .molv, c, .leaf li, .leaf lm =>
+      condEqLit c Cond.null && li.cls == .index && li.fn == "equal_to" && lm.cls == .key && lm.fn == "equal_to"
+        && (lookupStr "value" li.kwargs).isNone
+  | _, _, _, _ => false
+
 def barePart (k : PartKind) : Part :=
   { kind := k, cond := Cond.null, listCond := Cond.null, mapCond := Cond.null, label := none }
 
 /-- `DataPath.to_part_specs()` (refusing everything that would not be rebuilt as an equal path) -/
 def toPartSpecs (p : Path) : Except Exc (List PyVal) := do
   if p.datum != .none || p.multi != .none || p.source.isSome then throw .runtime
+  -- `simple_parts = self.simplify()` runs over every part first
+  if p.parts.any simplifyRaises then throw .keyError
   let specs ← p.parts.mapM (fun part =>
     if partEq part (barePart .map) then pure (PyVal.dict [(.str "type", .str "map_value")])
     else if partEq part (barePart .list) then pure (PyVal.dict [(.str "type", .str "list_value")])
@@ -111,7 +124,9 @@ def ruleToJson (r : RuleM) : R := do
         match castDtypeLookup.find? (fun p => p.2 == t) with
         | some p => pure p.1
         | none => throw .keyError
-      let toT ← match castLookup.find? (fun e => e.2 == tf.2 && e.1.1 == tf.1) with
+      -- `cast_types = {v: k for k, v in CAST_LOOKUP.items()}` (the last entry of a function wins);
+      -- `cast_types[cast_func][1]`: the rule's own from-type is not consulted
+      let toT ← match castLookup.reverse.find? (fun e => e.2 == tf.2) with
         | some e => pure e.1.2
         | none => throw .keyError
       pure (PyVal.str (← nameOf tf.1), PyVal.str (← nameOf toT)))
